@@ -77,6 +77,7 @@ def c02(F, R):
     e5_formulas.trait_method_rules(F, R)
     e5_formulas.base_formula_rules(F, R)
     e9_witness.witness_rules(F, R)
+    e1_layout.impl_bound_rules(F, R)
 
 
 def c03(F, R):
@@ -336,6 +337,7 @@ def c17(F, R):
     SIZES(F, R)  # size() rounds to ALIGN (= 1 for portable types): no padding is ever counted or sent
     e1_layout.layout_rules(F, R)
     e9_witness.witness_rules(F, R)
+    e1_layout.impl_bound_rules(F, R)
 
 
 def c18(F, R):
